@@ -106,7 +106,7 @@ def main():
     known = load_known()
     evidence_path = os.path.join(ROOT, 'evidence', pid + '.json')
     os.makedirs(os.path.dirname(evidence_path), exist_ok=True)
-    timeout_ms = 10000 if tier == 'quick' else 60000
+    timeout_ms = 20000 if tier == 'quick' else 90000
 
     start_pool()
     try:
